@@ -278,8 +278,9 @@ def property_verdict(records, out, all_input, sent, rest):
         took = r["end"] - r["start"]
         if took < 0:
             return f"state {r['key']} un-consumed input ({r['start']} -> {r['end']})"
-        if not ok or r["how"] == "raised":
+        if r["how"] == "raised":
             continue                # "... or it fails"
+        # a run that completed (by itself, or closed by its delegate) - whatever happens later
         if r["limit"] is not None:
             allowed = r["limit"] + (1 if r["consumes"] else 0)   # the limit applies after the state's own symbol
             if took > allowed:
@@ -287,6 +288,8 @@ def property_verdict(records, out, all_input, sent, rest):
                         f"with limit {r['limit']}")
         if r["ending"] is not None and r["end"] > max(r["ending"], r["start"]):
             return f"state {r['key']} completed ({r['how']}) at {r['end']} past the enclosing limit {r['ending']}"
+        if not ok:
+            continue
         if r["cycles"] is not None:
             want = 1 if r["repeat"] is None else r["repeat"]
             if r["cycles"] > max(want, 0):
@@ -599,20 +602,39 @@ class C10(Suite):
                      "chunks": [b.hex()]}
                 out = self.impl_lib(c)
                 t = out.split()
-                if t[0] == "ok" and t[3] == "1" and int(t[1]) == len(b) and (len(b) > 0 or name in cands):
-                    self._valid.append((name, b))
+                made = b in cands.get(name, [])
+                wv = L.wire_valid(name, b)
+                # known to be exactly one element: made by produce()/from the wire format, or the
+                # wire-format validator says so
+                exact = bool(wv) if wv is not None else made
+                if made or (t[0] == "ok" and t[3] == "1" and int(t[1]) == len(b) and len(b) > 0):
+                    self._valid.append((name, b, exact))
 
     def lib_cases(self, rng, quick):
         from corr import c10_lib as L
         self.lib_setup(rng)
         per = 3 if quick else 40
         byname = {}
-        for name, b in self._valid:
-            byname.setdefault(name, []).append(b)
+        for name, b, exact in self._valid:
+            byname.setdefault(name, []).append((b, exact))
+        # every encoding known to be exactly one element: followed by other bytes, without a limit, with the
+        # exact limit, and with a limit one short
+        for name in sorted(byname):
+            mode = "wrap" if name in L.SHARED else "kw"
+            for b, exact in byname[name]:
+                if not exact:
+                    continue
+                tail = bytes(rng.randint(0, 255) for _ in range(rng.choice([1, 2, 3])))
+                for lim in (None, len(b), max(len(b) - 1, 0)):
+                    yield {"op": "lib", "m": name, "mode": mode, "limit": lim, "n": len(b),
+                           "chunks": [(b + tail).hex()]}
         for name in sorted(byname):
             encs = byname[name]
-            picks = encs if len(encs) <= per else rng.sample(encs, per)
-            for b in picks:
+            first = [x for x in encs if x[1]]
+            other = [x for x in encs if not x[1]]
+            picks = (first if len(first) <= per else rng.sample(first, per)) + \
+                    (other if len(other) <= per // 3 + 1 else rng.sample(other, per // 3 + 1))
+            for b, exact in picks:
                 n = len(b)
                 limits = sorted(set(x for x in (0, 1, n // 2, n - 1, n, n + 1, n + 4) if x >= 0))
                 if quick and len(limits) > 4:
@@ -622,7 +644,7 @@ class C10(Suite):
                                  else [bytes(rng.randint(0, 255) for _ in range(rng.choice([0, 2])))]):
                         modes = ["wrap"] if name in L.SHARED else (["kw", "wrap"] if not quick else [rng.choice(["kw", "wrap"])])
                         for mode in modes:
-                            yield {"op": "lib", "m": name, "mode": mode, "limit": lim,
+                            yield {"op": "lib", "m": name, "mode": mode, "limit": lim, "n": n if exact else None,
                                    "chunks": split_chunks(rng, b + tail) if rng.random() < 0.3 else [(b + tail).hex()]}
 
     def lib_instance(self, name, mode):
@@ -664,6 +686,10 @@ class C10(Suite):
         why = property_verdict(sess.records, out, all_input, sent, drain(src, pend))
         if not why and out == "ok" and c["limit"] is not None and sent > c["limit"]:
             why = f"{c['m']} completed having consumed {sent} symbols with limit {c['limit']}"
+        if (not why and out == "ok" and c.get("n") is not None and sent > c["n"]
+                and L.self_delimiting(c["m"], all_input[:c["n"]])):
+            why = (f"{c['m']} consumed {sent} symbols of a valid {c['n']}-byte encoding followed by other bytes: "
+                   f"it read {sent - c['n']} past its own boundary")
         self._why[key] = why
         return line
 
